@@ -188,9 +188,11 @@ LEVEL['C15'] = dict(
          'depends only on the start position and N = ell − orth is invariant.',
     note='PARTIAL: the 0.3 mm closure in binary64 (search). Hand model: trusted via correspondence (zero disagreements, bitwise).')
 LEVEL['C20'] = dict(
-    technique='Lean 4 theorems over a hand model of the Flask handlers generic in the wired functions (handler = wiring spec for every query incl. error order, nine type combinations, route list) + bitwise correspondence through the Flask test client',
-    text='Machine-checked for all queries and all library functions: /vincinv passes lat1, lon1, lat2, lon2 in that order through '
+    technique='Lean 4 theorems over a reading of api/app.py regenerated on every run (translator/api2lean.py -> GenF/Api.lean), proved equal to a hand model of the Flask handlers generic in the wired functions (handler = wiring spec for every query incl. error order, nine type combinations, route list) + bitwise correspondence through the Flask test client',
+    text='Machine-checked for all queries and all library functions, about the regenerated text of app.py: /vincinv passes lat1, lon1, lat2, lon2 in that order through '
          'the input conversion (dd = identity, dms = hp2dec, default dd), returns ell_dist unconverted and both azimuths '
          'through the output conversion (dms = dec2hp); /vincdir likewise; input and output types are independent; the '
          'routed paths are /, /vincinv, /vincdir (compared with app.url_map on every run).',
-    note='Flask/Werkzeug parsing and jsonify formatting are covered by correspondence only. Hand model: trusted via correspondence.')
+    note='Flask/Werkzeug parsing and jsonify formatting are covered by correspondence only. Trusted: translator/api2lean.py and the '
+         'meaning of the two Python-call combinators (a converter applied to an absent number; a number handed on unconverted); '
+         'the hand model is proved equal to the regenerated reading and additionally tied by correspondence.')
